@@ -7,6 +7,8 @@ CHECKS = {
 }
 CHECKS['C03'] = dict(text='Bounded symbolic execution (z3) of the MIR of execute::run_command_line + line_to_cmds for every line of 1..4 (thorough 6) pipelines and every operator sequence over {;, &&, ||} with symbolic exit statuses (0..255); oracle: reference short-circuit semantics, $? (previous_status) seen by every executed pipeline, final status. Every leaf is additionally run through the real binary (`cicada -c`) and its trace and exit code compared.',
              note='run_proc is stubbed (arbitrary status); operator sequences are enumerated, statuses are solver variables; main.rs exit wiring only via the binary replay.', design='6/C03')
+CHECKS['C05'] = dict(text='Bounded symbolic execution (z3) of the MIR of the whole path a line takes up to the first process creation (run_command_line, line_to_cmds, run_proc, from_line with every expansion pass, run_pipeline planning incl. try_run_func / calculator classification) and of the pre-passes (trim_multiline_prompts, extend_bangbang, scripting::expand_args, is_arithmetic), the highlighter and escaped_word_start, for every line of <= n fully symbolic characters (quick: 3 for the command path and highlighter, 4 for escaped_word_start; thorough: +1). Every panic site reachable under the path condition is reported with the crashing line; loops whose state repeats are reported as hangs; both only after the native binary / hook reproduces them.',
+             note='Paths end at pipe()/fork(), builtin bodies, the pest calculator parser and function bodies (other properties). Stubs: env::var, glob (pattern-respecting adversarial answer), command substitution output. Dev profile. A deterministic 1/8 share of the ok-leaves is validated against the native binary.', design='6/C05')
 NA = {}
 ALL = ['C%02d' % i for i in range(1, 21)]
 m = dict(version=1, setup_cmd='./setup.sh',
